@@ -461,6 +461,16 @@ pub proof fn add_vars_preserves_function(t: Tree, n: int, e1: Env, e2: Env)
     }
 }
 
+/// the children of the top node are the two Shannon cofactors with respect to the top-most variable
+//@lemma name=cofactors_are_shannon props=C02
+pub proof fn cofactors_are_shannon(l: u32, a: Tree, b: Tree, env: Env)
+    requires wf(mk(l, a, b)),
+    ensures sem(mk(l, a, b), upd(env, l as int, true)) == sem(a, env), sem(mk(l, a, b), upd(env, l as int, false)) == sem(b, env),
+{
+    lemma_sem_upd(a, env, l as int, true);
+    lemma_sem_upd(b, env, l as int, false);
+}
+
 // ---------- substitution (C04) ----------
 pub open spec fn eviews<E: Edge>(s: Seq<E>) -> Seq<Tree> { s.map_values(|e: E| e.view()) }
 /// environment in which every level `i < s.len()` takes the value of its replacement function (simultaneous substitution)
@@ -1301,6 +1311,39 @@ fn sat_count_edge<M: Manager<Terminal = BDDTerminal>, N: SatCountNumber, S>(mana
 //@spec
     requires num_ok::<N>(), N::MIN_EXP == 0, ok(edge.view(), vars as int), cache_inv(old(cache), manager),
     ensures res.nv() == cnt(edge.view(), 0, vars as int), cache_inv(final(cache), manager),
+//@end
+// ---------- cofactors (C02): DiagramRules::cofactor of BDDRules and the default methods cofactors_node / cofactors_edge ----------
+pub struct BDDRules;
+impl BDDRules {
+//@fn file=crates/oxidd-rules-bdd/src/simple/mod.rs path=impl:DiagramRules<E,~N,~BDDTerminal>~for~BDDRules/fn:cofactor ret=r props=C02 vis=pub
+//@header
+fn cofactor<E: Edge, N: InnerNode<E>>(_tag: (), node: &N, n: usize) -> (r: Borrowed<'_, E>)
+//@spec
+    requires n < 2,
+    ensures r.view() == (if n == 0 { node.then_spec() } else { node.else_spec() }),
+//@end
+}
+/// what `<<Self::Manager as Manager>::Rules as DiagramRules<_,_,_>>::cofactor` denotes for the simple BDD (proved above)
+pub fn rules_cofactor<E: Edge, N: InnerNode<E>>(tag: (), node: &N, n: usize) -> (r: Borrowed<'_, E>)
+    requires n < 2,
+    ensures r.view() == (if n == 0 { node.then_spec() } else { node.else_spec() }),
+{ BDDRules::cofactor(tag, node, n) }
+//@fn file=crates/oxidd-core/src/function.rs path=trait:BooleanFunction/fn:cofactors_node ret=r props=C02 subst_text=let~cofactor~=~<<Self::Manager<@Q@id>~as~Manager>::Rules~as~DiagramRules<_,~_,~_>>::cofactor;::=;;cofactor(tag::=rules_cofactor(tag
+//@header
+fn cofactors_node<'a, M>(tag: (), node: &'a M::InnerNode) -> (r: (Borrowed<'a, M::Edge>, Borrowed<'a, M::Edge>))
+where M: Manager<Terminal = BDDTerminal>,
+//@spec
+    ensures r.0.view() == node.then_spec(), r.1.view() == node.else_spec(),
+//@end
+//@fn file=crates/oxidd-core/src/function.rs path=trait:BooleanFunction/fn:cofactors_edge ret=r props=C02 selfcall=Self::> subst_text=cofactors_node(f.tag(),~node)::=cofactors_node::<M>((),~node)
+//@header
+fn cofactors_edge<'a, M>(manager: &'a M, f: &'a M::Edge) -> (r: Option<(Borrowed<'a, M::Edge>, Borrowed<'a, M::Edge>)>)
+where M: Manager<Terminal = BDDTerminal>,
+//@spec
+    ensures match r {
+        Some(c) => f.view() matches Tree::Inner(_, a, b) && c.0.view() == *a && c.1.view() == *b,
+        None => f.view() is Leaf,
+    },
 //@end
 //@fn file=crates/oxidd-rules-bdd/src/simple/apply_rec.rs path=impl:BooleanFunction~for~BDDFunction<F>/fn:and_edge props=C02
 //@header
